@@ -957,6 +957,16 @@ func c18LendTracker(t *testing.T, tr *Trace, rng *Rng, a *c18App) {
 		k.SetLend(ctx, lendtypes.LendAsset{ID: 1, AssetID: assetID, PoolID: poolID, Owner: owner.String(), AmountIn: sdk.NewCoin("ulendx", principal),
 			LendingTime: time.Unix(t0, 0), AvailableToBorrow: principal, AppID: 1, GlobalIndex: sdk.OneDec(), LastInteractionTime: time.Unix(t0, 0),
 			CPoolName: "C18POOL", TotalRewards: sdk.ZeroInt()})
+		// a borrow of the same asset, variable or stable-rate (rate locked in at borrow time), accrued through BOTH routes from the
+		// same state: IterateBorrow (MsgCalculateBorrowInterest, repay, draw ...) and CalculateBorrowInterestForLiquidation (both
+		// liquidation generations), each on a discarded cache context
+		bStable := rng.Chance(60)
+		bPrincipal := sdk.NewInt(int64(1 + rng.Intn(2000000000)))
+		k.SetLendPair(ctx, lendtypes.Extended_Pair{Id: 1, AssetIn: assetID, AssetOut: assetID, AssetOutPoolID: poolID})
+		k.SetBorrow(ctx, lendtypes.BorrowAsset{ID: 1, LendingID: 1, IsStableBorrow: bStable, PairID: 1, AmountIn: sdk.NewCoin("uclendx", bPrincipal),
+			AmountOut: sdk.NewCoin("ulendx", bPrincipal), BridgedAssetAmount: sdk.NewCoin("ulendx", sdk.ZeroInt()), BorrowingTime: time.Unix(t0, 0),
+			StableBorrowRate: c18DecI(int64(rng.U64() % 400000000000000000)), InterestAccumulated: sdk.ZeroDec(), GlobalIndex: sdk.OneDec(),
+			ReserveGlobalIndex: sdk.OneDec(), LastInteractionTime: time.Unix(t0, 0), CPoolName: "C18POOL"})
 		tr.Line("lr.begin")
 		now := t0
 		for stp := 0; stp < rng.Range(2, scale(8, 14)); stp++ {
@@ -969,6 +979,36 @@ func c18LendTracker(t *testing.T, tr *Trace, rng *Rng, a *c18App) {
 				now += int64(rng.Intn(int(c18Year)))
 			}
 			sctx := ctx.WithBlockTime(time.Unix(now, 0))
+			if b0, found := k.GetBorrow(sctx, 1); found {
+				bapr, e1 := k.GetBorrowAPRByAssetID(sctx, poolID, assetID, b0.IsStableBorrow)
+				rr, e2 := k.GetReserveRate(sctx, poolID, assetID)
+				if e1 == nil && e2 == nil {
+					ca, _ := sctx.CacheContext()
+					var errA, errB error
+					var bB lendtypes.BorrowAsset
+					pA, _ := try(func() { _, _, errA = k.IterateBorrow(ca, 1) })
+					bA, _ := k.GetBorrow(ca, 1)
+					cb, _ := sctx.CacheContext()
+					pB, _ := try(func() { bB, errB = k.CalculateBorrowInterestForLiquidation(cb, 1) })
+					oA, oB := c18Outcome(pA, errA), c18Outcome(pB, errB)
+					dA, dB := "-", "-"
+					if oA == "ok" {
+						dA = c18Raw(bA.InterestAccumulated.Sub(b0.InterestAccumulated))
+					}
+					if oB == "ok" {
+						dB = c18Raw(bB.InterestAccumulated.Sub(b0.InterestAccumulated))
+					}
+					st := "0"
+					if b0.IsStableBorrow {
+						st = "1"
+					}
+					tr.Line("lr.routes", st, b0.AmountOut.Amount.String(), c18Raw(bapr), c18Raw(rr), c18Raw(b0.StableBorrowRate), c18Raw(b0.GlobalIndex),
+						c18Raw(b0.ReserveGlobalIndex), i64(now), i64(b0.LastInteractionTime.Unix()), oA, dA, oB, dB)
+					tr.Count("routes:stable=" + st + ":" + oA + ":" + oB)
+				} else {
+					tr.Count("routes:rates_unavailable")
+				}
+			}
 			lend, _ := k.GetLend(sctx, 1)
 			apr, err := k.GetLendAPRByAssetIDAndPoolID(sctx, poolID, assetID)
 			must(err)
